@@ -10,6 +10,7 @@ CONSTANTS
   SeekMax = 4
   Ops = TRUE
   Hints = {}
+  Faults = {"raise"}
   IterSingleLine = FALSE
   Emit = TRUE
 SPECIFICATION RSpec
